@@ -18,7 +18,7 @@ structure Inv2 (c : Cfg) (s : St V) (acts : List (Act V)) : Prop where
   exact : s.aborted = false → s.done = true → targetHit c s.core = false → ∀ N, c.maxEval = some N →
       s.accepted + s.rejected = N ∧ s.pushed = N
   /-- what is returned is the outcome of the (frozen) final state -/
-  retOut : ∀ o d, Act.ret o d ∈ acts → s.done = true ∧ o = outcome s
+  retOut : ∀ o d, Act.ret o d ∈ acts → s.done = true ∧ o = outcome s ∧ d = s.inflight.map (·.1)
 
 /-- facts about the state in the middle of the `Ok(Some(..))` branch, after counting and processing -/
 structure Mid2 (c : Cfg) (s : St V) (acts : List (Act V)) : Prop where
@@ -43,7 +43,7 @@ theorem finish_inv2 {c : Cfg} {s : St V} {acts : List (Act V)} (hm : InvMid c s 
     rcases hmem with hmem | hmem
     · exact absurd hmem (noRet o d)
     · injection hmem with h1 h2
-      exact ⟨rfl, by rw [h1]; rfl⟩
+      exact ⟨rfl, by rw [h1]; rfl, by rw [h2]⟩
 
 theorem min_lemma1 {a nc N ar : Nat} (h : a + 1 = Nat.min nc (N + 1 - ar)) (h1 : 1 ≤ ar)
     (hlt : ar + a < N) : a + 1 = Nat.min nc (N - ar) := by
